@@ -20,6 +20,33 @@
 //!        next block on <parent> (block labels; 0 = genesis) committing <txs>, proposing <props>, embedding <uncles>
 //! restart
 //!        stop the chain service, drop the node, open the same directory again (ext rows / cells persist)
+//!
+//! LINEAR scenarios (every block extends the node's tip; no ChainBuilder: epoch, compact target and
+//! chain root come from the node's own store, the cellbase and the dao bytes from the model):
+//! node <close> <far> <numer> <denom> <ser> <epoch_len> <genesis_cells> <primary epoch reward> [dao]
+//!        own consensus with that `initial_primary_epoch_reward` (tiny values put finalised rewards
+//!        below / at / above the occupied capacity of the reward cell: RewardVerifier's "insufficient
+//!        reward to create a cell" case); `dao`: the genesis also carries the bundled NervosDAO
+//!        binary (ckb-system-scripts, `Resource::bundled("specs/cells/dao")`) as a type-script code
+//!        cell and `consensus.dao_type_hash` is that type script's hash
+//! nb <label> <parent> <salt> <txs> <props> <uncles> <lock>
+//!        <lock> = <kind><args len>.<id>: the miner lock in the cellbase WITNESS of this block
+//!        (kind a = always-success code hash, x = a code hash of its own; args derived from the id)
+//! dtx <label> dep <input> <capacity> <fee> | dtx <label> prep <dep tx> <fee input> <fee> | dtx <label> wd <prep tx> <fee>
+//!        NervosDAO deposit / phase 1 / phase 2 (see `exec_dtx`); the phase-2 output is the MODEL's
+//!        maximum withdraw − fee; a sibling paying 1 shannon more is proposed along and submitted
+//!        in a variant block, which must be rejected
+//! ```
+//! Model lines of a linear `nb`: `reward`, then
+//! ```text
+//! cellbase <parent number>     model: the cellbase the block must carry: `none` | `out <capacity> <lock id>`
+//!                              (reward of the target, the target's witness lock from the model's lock
+//!                              table, occupied capacity, expectedCellbase); impl: the repo's
+//!                              RewardCalculator (amount, lock) + `is_lack_of_capacity`
+//! cbverify <p> <total> <lockOcc> <outs>   model: CellbaseVerifier's output count + RewardVerifier; impl:
+//!                              the NODE's verdict on a variant block (ok | err-quantity | err-amount | err-target)
+//! lock <n> <lock id> <args len>  the witness lock of block n joins the model's lock table          -> ok
+//! withdraw <cell> <dn> <dar> <wn> <war>   (dtx wd) model: calculate_maximum_withdraw; impl: the repo's
 //! ```
 //! ## model lines emitted while executing one `nb` (all ops of the `arith`/`chain` streams + 2 new)
 //! ```text
@@ -1654,8 +1681,17 @@ impl Scn {
             let code_total = if t == 1 && got < spec_total { spec_total - proposer } else { spec_total };
             let due = code_total >= want_occ;
             let tb_lock_differs = want_lock != packed::CellbaseWitness::from_slice(&stored.transactions()[0].witnesses().get(0).unwrap().raw_data()).expect("witness").lock();
+            if committer + proposer > 0 && spec_total + 1 >= want_occ && spec_total <= want_occ + 1 {
+                ctx.out.count("attached-block-reward-within-one-shannon-of-the-cell:with-fee-shares");
+            }
+            if due && spec_total == want_occ + 1 {
+                ctx.out.count("attached-block-reward-one-shannon-above-the-cell");
+            }
             if !due {
                 ctx.out.count("attached-block-with-insufficient-reward");
+                if committer + proposer > 0 {
+                    ctx.out.count("attached-block-with-insufficient-reward:with-fee-shares");
+                }
                 if spec_total + 1 == want_occ {
                     ctx.out.count("attached-block-with-insufficient-reward:one-shannon-short");
                 }
